@@ -17,6 +17,8 @@ open Py
 
 def noBreak (s : Str) : Prop := ∀ c ∈ s, isBreak c = false
 
+instance (s : Str) : Decidable (noBreak s) := by unfold noBreak; exact inferInstance
+
 def lfCore (l : Str) : Str := if l.getLast? = some '\n' then l.dropLast else l
 def lfTail (l : Str) : List Str := if l.getLast? = some '\n' then [[]] else []
 
